@@ -33,13 +33,13 @@ def concrete(inp):
         a, b, c, T = (float(inp[k]) for k in ("a", "b", "c", "T"))
         if T > 1 and (kind != "antoine" or abs(T + c) > 1e-3 * T):
             comp = _fcomp(kind, a, b, c)
-            h = 1e-4 * T
+            h = 2e-3 * T
             try:
                 lp = lambda t: math.log(float(comp.get_vapor_pressure(t)))
-                d = (lp(T + h) - lp(T - h)) / (2 * h)
+                d = (lp(T - 2 * h) - 8 * lp(T - h) + 8 * lp(T + h) - lp(T + 2 * h)) / (12 * h)  # 5-point stencil
                 want = pvutils.R * T * T * d
                 got = 1000 * float(comp.get_vaporisation_heat(T))
-                if not close(got, want, 1e-5, 1e-6):
+                if not close(got, want, 2e-7, 1e-9):
                     bad.append("%s: 1000*H(T=%r)=%r but R T^2 dlnP/dT=%r" % (kind, T, got, want))
             except (OverflowError, ValueError):
                 pass
